@@ -412,6 +412,19 @@ def python_half(ctx):
                     else:
                         ctx.violation({"where": "python", "op": "rmse", "dirs": dirs, "nf": nf, "spectrum": spectrum, "lead": lead},
                                       "rmse of two valid %s spectra (dirs=%s, nf=%d, lead=%s): %s" % (spectrum, dirs, nf, lead, what))
+    # ---- valid spectra partitioned from several threads at once (what a threaded dask scheduler does): a result, not a crash
+    from harness.props.c04 import _threaded_maps
+    n, nk, nth, workers = (24, 40, 48, 8) if ctx.quick else (96, 48, 72, 16)
+    kindc, valc = run_forked(_threaded_maps, ctx.seed, n, nk, nth, workers, timeout=900)
+    ctx.case(("py", "threads", n, nk, nth, workers), True)
+    if kindc == "crash":
+        ctx.violation({"where": "python", "kind": "interpreter-crash", "stage": "concurrent callers"},
+                      "the interpreter died while %d threads partitioned valid spectra concurrently (%s)" % (workers, valc))
+    elif valc[0]:
+        ctx.violation({"where": "python", "kind": "concurrent-result", "stage": "concurrent callers"},
+                      "%d of %d watershed calls from %d concurrent threads raised or returned another spectrum's map" % (valc[0], valc[1], workers))
+    else:
+        ctx.replayed(valc[1])
     if vecs:
         ctx.sample({"kind": "outcome-table case", "case": vecs[len(vecs) // 2]})
 
